@@ -3,16 +3,20 @@ module verifharness
 go 1.18
 
 require (
+<<<<<<< HEAD
 	github.com/rhysd/actionlint v0.0.0
 	gopkg.in/yaml.v3 v3.0.1
+=======
+	github.com/bmatcuk/doublestar/v4 v4.8.0
+	github.com/mattn/go-runewidth v0.0.16
+	github.com/rhysd/actionlint v0.0.0
+>>>>>>> wp-out
 )
 
 require (
-	github.com/bmatcuk/doublestar/v4 v4.8.0 // indirect
 	github.com/fatih/color v1.18.0 // indirect
 	github.com/mattn/go-colorable v0.1.14 // indirect
 	github.com/mattn/go-isatty v0.0.20 // indirect
-	github.com/mattn/go-runewidth v0.0.16 // indirect
 	github.com/mattn/go-shellwords v1.0.12 // indirect
 	github.com/rivo/uniseg v0.4.7 // indirect
 	github.com/robfig/cron/v3 v3.0.1 // indirect
